@@ -24,7 +24,8 @@ public:
   static const char *GetBackendLongName() { return nullptr; }
   void InitCustomOptions() override;
   void InitOptionParsing() override {}
-  void FinishOptionParsing() override {}
+  void FinishOptionParsing() override { rec_fault("options"); }
+  void ReportCustomSuffixes() override { rec_fault("suffixes"); }
 
   USING_STD_FEATURES;
   ALLOW_STD_FEATURE(MULTIOBJ, true)
@@ -50,7 +51,7 @@ public:
 
   bool IsMIP() const override;   // env RECSOLVER_ISMIP (default 1); 0 makes the driver return the basis
   bool IsQCP() const override { return st_.n_quad > 0; }
-  void SetInterrupter(mp::Interrupter *) override {}
+  void SetInterrupter(mp::Interrupter *) override { rec_fault("extras"); }
   void Solve() override;
 protected:
   ArrayRef<double> PrimalSolution() override;
